@@ -1,6 +1,7 @@
 import RtenVerif.Lemmas.TensorBoundsOverlapM
 import RtenVerif.Lemmas.TensorBoundsSplit
 import RtenVerif.Lemmas.TensorBoundsViews
+import RtenVerif.Lemmas.TensorBoundsSliceM
 import RtenVerif.Props.C08
 
 /-!
@@ -803,6 +804,123 @@ theorem c06_T3_old_false_append :
     minDataLen (M.toN [(3, 9223372036854775808), (2, 1)]) = 18446744073709551618 ∧
     M.offsetOf [(3, 9223372036854775808), (2, 1)] [1, 0] = some 9223372036854775808 ∧
     M.expandedLayout [(0, 9223372036854775808), (2, 1)] 8 0 3 = none := by
+  decide
+
+/-! ## `slice` / `try_slice` / `slice_mut`: `resolve` + the `step == 1` fast path
+
+The ideal-arithmetic *semantics* of slicing (which elements the view denotes, all steps) is
+C09's `c09_slice`; here: the view never leaves the parent's storage, and on machine integers
+nothing wraps — provided `resolve` returns `start ≤ end`, which the current code guarantees
+(`resolve1_ok`) and the variant without `end.max(start)` does not. -/
+
+/-- The view `slice_dyn` computes before the storage range assertion. -/
+def sliceViewR (dims : List (Nat × Nat)) (items : List RItem) : View :=
+  ⟨if hasZero (sliceLoopR dims items).2 then 0 else (sliceLoopR dims items).1,
+    (if hasZero (sliceLoopR dims items).2 then 0 else (sliceLoopR dims items).1) +
+      minDataLen (sliceLoopR dims items).2,
+    (sliceLoopR dims items).2⟩
+
+theorem trySliceR_unfold (dims : List (Nat × Nat)) (n : Nat) (items : List RItem) :
+    trySliceR dims n items =
+      if rangeValid (sliceViewR dims items) n then some (sliceViewR dims items) else none := rfl
+
+/-- **C06.T2m** for resolved items with `start ≤ end ≤ size`: whenever `slice_dyn` +
+`Storage::slice(_mut)` succeed on a tensor with `n` elements of storage, the view's storage
+range ends inside the storage, every valid index of the view addresses an element inside the
+view's own range which the parent addresses too, and a non-overlapping parent gives an
+injective view (no aliasing through `slice_mut`). -/
+theorem c06_T2_slice {dims : List (Nat × Nat)} {n : Nat} {items : List RItem} {v : View}
+    (hok : ItemsOk dims items) (h : trySliceR dims n items = some v) :
+    v.stop ≤ n ∧
+    (∀ j, ValidIdx v.dims j →
+      v.start + offset v.dims j < v.stop ∧ v.start + offset v.dims j < minDataLen dims) ∧
+    (mayOverlap dims = false → ∀ j j', ValidIdx v.dims j → ValidIdx v.dims j' →
+      offset v.dims j = offset v.dims j' → j = j') := by
+  rw [trySliceR_unfold] at h
+  by_cases hrv : rangeValid (sliceViewR dims items) n = true
+  · rw [if_pos hrv] at h
+    have hv := Option.some.inj h
+    subst hv
+    simp only [rangeValid, Bool.and_eq_true, decide_eq_true_eq] at hrv
+    refine ⟨hrv.2, ?_, ?_⟩
+    · intro j hj
+      have hj' : ValidIdx (sliceLoopR dims items).2 j := hj
+      have hz := valid_hasZero hj'
+      obtain ⟨vi, oi⟩ := slice_embed dims items hok j hj'
+      have ht := c06_T1_offset_lt_min_data_len _ _ hj'
+      have hp := c06_T1_offset_lt_min_data_len _ _ vi
+      rw [oi] at hp
+      show (if hasZero (sliceLoopR dims items).2 = true then 0 else (sliceLoopR dims items).1) +
+          offset (sliceLoopR dims items).2 j <
+          (if hasZero (sliceLoopR dims items).2 = true then 0 else (sliceLoopR dims items).1) +
+            minDataLen (sliceLoopR dims items).2 ∧
+        (if hasZero (sliceLoopR dims items).2 = true then 0 else (sliceLoopR dims items).1) +
+          offset (sliceLoopR dims items).2 j < minDataLen dims
+      rw [hz]
+      simp only [Bool.false_eq_true, if_false]
+      exact ⟨by omega, hp⟩
+    · intro hno j j' hj hj' heq
+      have hj1 : ValidIdx (sliceLoopR dims items).2 j := hj
+      have hj2 : ValidIdx (sliceLoopR dims items).2 j' := hj'
+      obtain ⟨vi, oi⟩ := slice_embed dims items hok j hj1
+      obtain ⟨vi', oi'⟩ := slice_embed dims items hok j' hj2
+      have heq' : offset (sliceLoopR dims items).2 j = offset (sliceLoopR dims items).2 j' := heq
+      exact embedIdx_inj dims items hok j j' hj1 hj2
+        (c08_no_overlap_injective dims _ _ hno vi vi' (by rw [oi, oi', heq']))
+  · rw [if_neg hrv] at h
+    cases h
+
+/-- **C06.T2n** the same for the API as called: `try_slice(items)` with indices and step-1
+ranges in any spelling, resolved by the current `SliceRange::resolve`. -/
+theorem c06_T2_trySlice {dims : List (Nat × Nat)} {n : Nat} {items : List SItem} {v : View}
+    (h : trySlice true dims n items = .ok v) :
+    v.stop ≤ n ∧
+    (∀ j, ValidIdx v.dims j →
+      v.start + offset v.dims j < v.stop ∧ v.start + offset v.dims j < minDataLen dims) ∧
+    (mayOverlap dims = false → ∀ j j', ValidIdx v.dims j → ValidIdx v.dims j' →
+      offset v.dims j = offset v.dims j' → j = j') := by
+  unfold trySlice at h
+  split at h
+  · cases h
+  · next rs hrs =>
+    split at h
+    · cases h
+    · next v' hv =>
+      cases h
+      exact c06_T2_slice (resolveItems_ok dims items rs hrs) hv
+
+/-- Non-vacuity: `t.slice((1..3, -2..))` on a 3×4 row-major tensor; and the reversed in-bounds
+range `5..2` on 8 elements, which the current `resolve` turns into the empty range `5..5`. -/
+example : trySlice true [(3, 4), (4, 1)] 12 [.range 1 (some 3), .range (-2) none] =
+      .ok ⟨6, 12, [(2, 4), (2, 1)]⟩ ∧
+    ValidIdx [(2, 4), (2, 1)] [1, 1] ∧
+    trySlice true [(8, 1)] 8 [.range 5 (some 2)] = .ok ⟨0, 0, [(0, 1)]⟩ ∧
+    resolve1 true (-1) (some (-3)) 8 = some (7, 7) := by
+  refine ⟨by decide, .cons (by omega) (.cons (by omega) .nil), by decide, by decide⟩
+
+/-- **C06.T3k** on every accepted tensor and for resolved items with `start ≤ end ≤ size`, the
+`UInt64` evaluation of `slice_layout`'s fast path, of `offset + min_data_len` and of the storage
+range assertion equals the ideal evaluation: `end - start` cannot wrap, the offset of a
+non-empty result cannot wrap, the range end cannot wrap. -/
+theorem c06_T3_slice (d : List (M.U × M.U)) (n : M.U) (items : List M.RItem) {k : Nat} {m : Bool}
+    (acc : Accepted (M.toN d) k m) (hok : ItemsOk (M.toN d) (items.map M.RItem.toN)) :
+    (M.trySliceR d n items).map M.viewToN =
+      trySliceR (M.toN d) n.toNat (items.map M.RItem.toN) :=
+  M.trySliceR_eq d n items acc.offset_fits hok
+
+/-- **Without `let end = end.max(start)` the machine model accepts an out-of-bounds view**:
+`resolve` then returns the reversed range `5..2` for `t.slice(5..2)` on 8 elements;
+`end - start` wraps to `2^64 - 3`, `offset + min_data_len` wraps to the range `5..2`, which
+`assert_storage_range_valid` accepts (`5 ≤ 8 ∧ 2 ≤ 8`) and whose `Range::len()` is 0: a view of
+`2^64 - 3` elements over an empty storage, whose valid index `[1]` is element 6 of the parent.
+The current `resolve` yields `5..5` and an empty view instead. -/
+theorem c06_T3_resolve_without_max_false :
+    resolve1 false 5 (some 2) 8 = some (5, 2) ∧
+    resolve1 true 5 (some 2) 8 = some (5, 5) ∧
+    M.trySliceR [(8, 1)] 8 [.span 5 2] = some ⟨5, 2, [(18446744073709551613, 1)]⟩ ∧
+    (⟨5, 2, [(18446744073709551613, 1)]⟩ : M.View).storageLen = 0 ∧
+    M.offsetOf [(18446744073709551613, 1)] [1] = some 1 ∧
+    M.trySliceR [(8, 1)] 8 [.span 5 5] = some ⟨0, 0, [(0, 1)]⟩ := by
   decide
 
 end RtenVerif.TensorBounds
